@@ -78,8 +78,24 @@ class Inst:
             return pym.NodalOperation(pym.Signal('x', v), domain=d, element_matrix=EM), None
         return H.build_module(pym, spec, d, v)
 
-    def arr(self, data):
-        return np.array(data, dtype=float)
+    def arr(self, data, ev=None):
+        """the caller-owned array of an event, in the dtype / memory layout the event names (values are the same)"""
+        a = np.array(data, dtype=float)
+        ev = ev or {}
+        if ev.get('dtype') and np.all(a == np.round(a)):
+            a = a.astype(ev['dtype'])
+        lay = ev.get('layout')
+        if lay == 'F' and a.ndim >= 2:
+            a = np.asfortranarray(a)
+        elif lay == 'strided':          # every second entry of a larger buffer along the last axis
+            big = np.zeros(a.shape[:-1] + (2 * a.shape[-1],), dtype=a.dtype)
+            big[..., ::2] = a
+            a = big[..., ::2]
+        if lay:
+            self.ctx.count(f'history array layout {lay}' + ('' if a.flags.c_contiguous else ' (non-contiguous)'))
+        if ev.get('dtype'):
+            self.ctx.count(f'history array dtype {a.dtype}')
+        return a
 
     def site(self, which):
         return f'{CLS[self.kind]}.{which}'
@@ -128,16 +144,18 @@ class Inst:
     def _step(self, ev, which):
         H, d = self.H, self.scen.d
         if ev['ev'] == 'resp':
-            data = self.arr(ev['v'])
+            data = self.arr(ev['v'], ev)
             if self.m is None:
                 self.cur = data.copy()
                 self.m, self.om = self.build(d, self.cur)
                 self.owned.append((self.cur, self.cur.copy(), f'input array of event {self.k}'))
             elif ev.get('mode') == 'inplace':
                 self.cur[...] = data
+                data = np.array(self.cur, dtype=float)      # what the array holds now (an integer-typed array keeps integers)
                 self.owned = [(a, a.copy(), w) if a is self.cur else (a, e, w) for a, e, w in self.owned]
             else:
-                self.cur = data.copy()
+                self.cur = data            # in the layout / dtype of the event
+                data = np.array(data, dtype=float)
                 self.m.sig_in[0].state = self.cur
                 self.owned.append((self.cur, self.cur.copy(), f'input array of event {self.k}'))
             self.m.response()
@@ -156,8 +174,8 @@ class Inst:
                 self.explicit(ev, data, np.asarray(y, dtype=float), which)
             self.held.append((y, np.array(y), f'state returned by event {self.k} (response)'))
         elif ev['ev'] == 'sens':
-            seed = self.arr(ev['dy']).reshape(np.shape(self.m.sig_out[0].state))
-            seed0 = seed.copy()
+            seed = self.arr(np.array(ev['dy'], dtype=float).reshape(np.shape(self.m.sig_out[0].state)), ev)
+            seed0 = np.array(seed, dtype=float)
             self.owned.append((seed, seed0, f'seed of event {self.k}'))
             self.m.reset()
             self.m.sig_out[0].sensitivity = seed
@@ -284,14 +302,17 @@ def ints(r, n, lo, hi, q=1):
     return [r.randint(q * lo, q * hi) / q for _ in range(n)]
 
 
-def template(r, nin, nout, v1=None, v2=None, xdata=False, order=None):
+def template(r, nin, nout, v1=None, v2=None, xdata=False, order=None, int_second=False):
     """the event list of one instance; nin / nout: sizes of the input and of the flattened output"""
     mk_in = (lambda: [r.choice((0.0, 0.25, 0.5, 1.0)) for _ in range(nin)]) if xdata else (lambda: ints(r, nin, -5, 5, 4))
     v1 = v1 if v1 is not None else mk_in()
     v2 = v2 if v2 is not None else mk_in()
     v3 = mk_in()
     s1, s2 = ints(r, nout, -3, 3, 2), ints(r, nout, -3, 3, 2)
-    ev = [dict(ev='resp', v=v1, mode='new'), dict(ev='sens', dy=s1), dict(ev='resp', v=v2, mode='new'), dict(ev='sens', dy=s2),
+    if int_second:
+        v2 = [float(round(v)) for v in v2]
+    ev = [dict(ev='resp', v=v1, mode='new'), dict(ev='sens', dy=s1),
+          dict(ev='resp', v=v2, mode='new', layout='strided', **(dict(dtype='int64') if int_second else {})), dict(ev='sens', dy=s2, layout='F'),
           dict(ev='resp', v=v3, mode='inplace'), dict(ev='sens_none'), dict(ev='resp', v=v1, mode='new'), dict(ev='sens', dy=s1)]
     if order is not None:       # a random history: the first event stays a response
         rest = [dict(e) for e in ev[1:]]
@@ -308,14 +329,14 @@ def build_scenarios(H, ctx, pym):
     rs = _random.Random(1214)
     scen = []
 
-    def generic(s, d, r, lead, ndof, node_level=False, pair=None, order=None, em=None):
+    def generic(s, d, r, lead, ndof, node_level=False, pair=None, order=None, em=None, int_second=False):
         en, nel, nn = d.elemnodes, d.nel, d.nnodes
         kd = en if node_level else en * ndof
         nrow = int(np.prod(lead)) if lead else 1
         if em is None:
             em = np.array(ints(r, nrow * kd, -4, 4), dtype=float).reshape(list(lead) + [kd]).tolist()
         oshape = ([ndof] if (node_level and ndof > 1) else []) + list(lead) + [nel]
-        s.add(dict(what='elemop', em=em, ndof=ndof, pair=pair), template(r, nn * ndof, int(np.prod(oshape)), order=order))
+        s.add(dict(what='elemop', em=em, ndof=ndof, pair=pair), template(r, nn * ndof, int(np.prod(oshape)), order=order, int_second=int_second))
         return em
 
     def nodal(s, d, r, lead, ndof, em=None, pair=None, order=None):
@@ -336,7 +357,7 @@ def build_scenarios(H, ctx, pym):
     d = s.d
     em = generic(s, d, rs, [2], 2, pair='A')
     nodal(s, d, rs, [2], 2, em=em, pair='A')
-    generic(s, d, rs, [3], 2, node_level=True)
+    generic(s, d, rs, [3], 2, node_level=True, int_second=True)
     nodal(s, d, rs, [], 1)              # ndof = 1: the dof connectivity IS the node connectivity
     nodal(s, d, rs, [2, 2], 1)
     nu2 = d.nnodes * 2
@@ -362,7 +383,7 @@ def build_scenarios(H, ctx, pym):
     s = Scenario(H, ctx, pym, 'int-sizes-2d', (3, 1, 0), (2, 1, 1), kinds=['int'] * 3)
     d = s.d
     nodal(s, d, rs, [], 2)
-    generic(s, d, rs, [], 1, node_level=True)
+    generic(s, d, rs, [], 1, node_level=True, int_second=True)
     s.add(dict(what='average', kw=dict(ndof=1)), template(rs, d.nnodes, d.nel))
     s.add(dict(what='thermo', kw=dict(E=2, nu=0, alpha=1, plane='plane stress')), template(rs, d.nel, d.nnodes * 2, xdata=True))
     scen.append(s)
